@@ -43,7 +43,7 @@
 From Coq Require Import List NArith.
 From ApiFu Require Import Base.Sexp Vld.Ast Vld.Inspect Vld.InspectProofs Vld.TypeInfoModel Vld.TypeInfoPure Vld.ValidatorModel Vld.ValidSpec
      Vld.Hyps Vld.ProofsCommon Vld.ProofsDirectives Vld.ProofsArguments Vld.ProofsFragDecl Vld.ProofsValues
-     Vld.ProofsCycles Vld.ProofsVarsOrder Vld.ProofsOrder Vld.ProofsOperations Vld.ProofsTotal Vld.Enumerate Vld.ProofsFields Vld.ProofsMemo Vld.ValidatorProofs Vld.ProofsSpreads Vld.ProofsSecondary Vld.ProofsDepth Vld.ProofsDepthRule Vld.MemoTransfer Vld.ProofsMemoConverse Vld.MemoEquiv Vld.ProofsTypeInfoValues Vld.Witness.
+     Vld.ProofsCycles Vld.ProofsVarsOrder Vld.ProofsOrder Vld.ProofsOperations Vld.ProofsTotal Vld.Enumerate Vld.ProofsFields Vld.ProofsMemo Vld.ValidatorProofs Vld.ProofsSpreads Vld.ProofsSecondary Vld.ProofsSpecReach Vld.ProofsVarsSpec Vld.ProofsDepth Vld.ProofsDepthRule Vld.MemoTransfer Vld.ProofsMemoConverse Vld.MemoEquiv Vld.ProofsTypeInfoValues Vld.Witness.
 Import ListNotations.
 
 (** ** determinism: acceptance is a function of schema, features and document alone *)
@@ -223,11 +223,12 @@ Proof. exact filter_primary_secondary. Qed.
     (first field visitor, fragment declarations, directives, fragment spreads with the cycle search)
     reported nothing at all — so none of the secondary errors of these groups (field of unknown
     parent, unknown spread target inside an undefined scope, ...) survives the filter alone.
-    [valid_root] is a premise here (its failure is the primary error EOpUnsupported of the
-    operations group, not yet connected). *)
+    That every operation's root type exists is part of the conclusion (its failure is the primary
+    error EOpUnsupported of validateOperations). *)
 Theorem C04_secondary_never_alone_partial : forall pi S F D errs,
-  order_ok pi -> schema_ok S = true -> valid_root S D = true ->
+  order_ok pi -> schema_ok S = true ->
   all_rules repaired pi S F (pti_doc (q_unwrap_obj repaired) S F D) = Done errs -> primary errs = [] ->
+  valid_root S D = true /\
   (forall d o, In d D -> In o (ssels_ss S F (model_def_scope S F d) (def_sub d)) -> good S (fst o)) /\
   r_errs (inspect (fields_enter S F) pop (tree_doc (pti_doc (q_unwrap_obj repaired) S F D)) rst0) = [] /\
   rule_fragment_declarations pi S F (pti_doc (q_unwrap_obj repaired) S F D) = [] /\
@@ -238,8 +239,8 @@ Proof. exact no_primary_then_silent. Qed.
 (** ** what C01's [doc_ok] takes from validation (C01 Properties header, INTERFACE TO C04)
     (a) type conditions composite: valid_5_5_1;  (b) @skip/@include conditions, literal half:
     valid_5_7 and valid_5_6 (the [if:] literal coerces to Boolean!) — the variable half
-    ("a variable used in a directive is declared Boolean") is C04_variables_rule_iff and is NOT yet
-    connected to the Spec's 5.8.5;  (c) the root type exists: valid_root;  (f) every field is
+    ("a variable used in a directive is declared Boolean") is C04_accepted_variable_usages_allowed
+    with C04_usage_allowed_at_named_nonnull, see C04_validate_ok_doc_ok_partial below;  (c) the root type exists: valid_root;  (f) every field is
     defined on the parent type of its selection set: fields_defined, valid_5_3_1.
     (d) (e) (i-depth) are C01's own, (g) is C05's, (h) is [schema_ok]. *)
 Theorem C04_accepted_doc_ok_conjuncts : forall pi S F D,
@@ -249,6 +250,63 @@ Theorem C04_accepted_doc_ok_conjuncts : forall pi S F D,
   valid_root S D = true /\
   (fields_defined S F D = true /\ valid_5_3_1 S F D = true).
 Proof. exact accepted_doc_ok_conjuncts. Qed.
+
+(** ** 5.5.2.2 and 5.8 in the Spec's own formulation
+    The Spec decides reachability between fragments by a fuel-bounded breadth-first closure
+    ([ValidSpec.reach]); it is exactly the transitive closure of "spreads directly" (the fuel, one
+    more than the number of spreads written in the document, always suffices). *)
+Theorem C04_spec_reachable_from : forall D n x, In x (reachable_from D n) <-> plus (spreads_of D) n x.
+Proof. exact spec_reachable_from. Qed.
+Theorem C04_spec_op_fragments : forall D d x,
+  In x (op_fragments D d) <-> In x (spreads_of_def d) \/ exists f, In f (spreads_of_def d) /\ plus (spreads_of D) f x.
+Proof. exact spec_op_fragments. Qed.
+
+(** accepted => no fragment reaches itself (5.5.2.2); variable names unique per operation (5.8.1),
+    declared with input types (5.8.2), every use declared (5.8.3), every variable used (5.8.4), every
+    use allowed at its position (5.8.5) — uses enumerated by the Spec with the Spec's types, over
+    the fragments the Spec says the operation includes *)
+Theorem C04_accepted_cycles_variables : forall pi S F D,
+  order_ok pi -> schema_ok S = true -> validate_model_memo repaired pi S F D = Done [] ->
+  valid_5_5_2_2 D = true /\
+  valid_5_8_1 D = true /\ valid_5_8_2 S F D = true /\ valid_5_8_3 S F D = true /\ valid_5_8_4 S F D = true /\ valid_5_8_5 S F D = true.
+Proof. exact memo_accepted_cycles_variables. Qed.
+
+(** the same per use, without the Spec's "if the declared type is an input type" escape; and what
+    "allowed at a position of type b!" (the [if:] of @skip / @include, b = Boolean) says about the
+    declared type: it is b under non-null wrappers, and it is non-null itself unless the position or
+    the variable has a default *)
+Theorem C04_accepted_variable_usages_allowed : forall pi S F D,
+  order_ok pi -> schema_ok S = true -> validate_model_memo repaired pi S F D = Done [] ->
+  forall ot n vars dirs sub, In (DOp ot n vars dirs sub) D ->
+  forall u, In u (op_usages S F D (DOp ot n vars dirs sub)) ->
+  exists vd, find_var (u_name u) vars = Some vd /\
+  exists vt, declared_type S F (vd_type vd) = Some vt /\
+  forall lt, u_type u = Some lt -> usage_allowed vd vt lt (u_default u) = true.
+Proof. exact memo_accepted_usages_allowed. Qed.
+Theorem C04_usage_allowed_at_named_nonnull : forall vd vt b ds,
+  usage_allowed vd vt (StNonNull (StNamed b)) ds = true ->
+  peel vt = StNamed b /\
+  (is_nonnull vt = true \/ ds = true \/ exists x, vd_default vd = Some x /\ is_null x = false).
+Proof. exact usage_allowed_named. Qed.
+
+(** ** validate_ok_doc_ok (partial): the conjuncts of C01's [doc_ok] that rest on a validation rule
+    (items (a), (b), (c), (f) of the list in C01's Properties header), in this development's terms.
+    NOT here: the step from "defined on the parent type of the selection set" to "defined on every
+    possible object type" and the merged sub-selections (items (f) second half and (i): C03's
+    [validate_establishes_typing], over the execution document and schema), (d) (e) (C01's own),
+    (g) (C05), (h) (schema construction). *)
+Theorem C04_validate_ok_doc_ok_partial : forall pi S F D,
+  order_ok pi -> schema_ok S = true -> validate_model_memo repaired pi S F D = Done [] ->
+  valid_5_5_1 S F D = true /\
+  (valid_5_7 S D = true /\ (values_typed_input S F D = true -> valid_5_6 S F D = true)) /\
+  (forall ot n vars dirs sub, In (DOp ot n vars dirs sub) D ->
+   forall u, In u (op_usages S F D (DOp ot n vars dirs sub)) ->
+   exists vd, find_var (u_name u) vars = Some vd /\
+   exists vt, declared_type S F (vd_type vd) = Some vt /\
+   forall lt, u_type u = Some lt -> usage_allowed vd vt lt (u_default u) = true) /\
+  valid_root S D = true /\
+  (fields_defined S F D = true /\ valid_5_3_1 S F D = true).
+Proof. exact validate_ok_doc_ok_partial. Qed.
 
 (** ** rule groups against sections of the specification *)
 (** 5.7.1 – 5.7.3 (directives defined, in valid locations, unique per location): no hypothesis *)
@@ -423,6 +481,12 @@ Print Assumptions C04_filter_nil.
 Print Assumptions C04_filter_secondary_only_without_primary.
 Print Assumptions C04_secondary_never_alone_partial.
 Print Assumptions C04_accepted_doc_ok_conjuncts.
+Print Assumptions C04_spec_reachable_from.
+Print Assumptions C04_spec_op_fragments.
+Print Assumptions C04_accepted_cycles_variables.
+Print Assumptions C04_accepted_variable_usages_allowed.
+Print Assumptions C04_usage_allowed_at_named_nonnull.
+Print Assumptions C04_validate_ok_doc_ok_partial.
 Print Assumptions C04_rule_directives_iff.
 Print Assumptions C04_rule_fragment_declarations_iff.
 Print Assumptions C04_rule_operations_iff_partial.
